@@ -19,4 +19,5 @@ def rules(repo, tier):
             if not any(isinstance(n, ast.Raise) for n in ast.walk(f.node)):
                 d.add(Finding('C01.DT', f, 'group type %sType defines an Exp that does not raise' % G, construct='group Exp'))
     out.append(d)
+    out.append(rule_dtype(repo, 'C01.DTYPE', EXP_TARGETS + [(OP, 'se3_Exp.forward'), (OP, 'sim3_Exp.forward'), (OP, 'rxso3_Exp.forward')], floor=7))
     return out
